@@ -31,6 +31,7 @@ public:
   bool saved{ true };
   bool open{ true };
   uint32_t writes{ 0 };   // how many times an operation result was written into this document
+  bool readOnly{ false }; // failure injection: the document refuses to store an operation result
   MemManager* owner{ nullptr };
 
   MemSource() { schema.AddObserver(*this); }
@@ -44,7 +45,7 @@ public:
   [[nodiscard]] change::Hash FullHash() const override { return schema.FullHash(); }
   [[nodiscard]] bool WriteData(meta::UniqueCPPtr<src::DataStream> data) override {
     const auto* rsData = dynamic_cast<const RSForm*>(data.get());
-    if (rsData == nullptr) {
+    if (rsData == nullptr || readOnly) {
       return false;
     }
     schema = *rsData;
@@ -353,6 +354,7 @@ json Snapshot() {
         p["doc_open"] = doc->open;
         p["doc_saved"] = doc->saved;
         p["doc_writes"] = doc->writes;
+        p["doc_readonly"] = doc->readOnly;
         p["data"] = SchemaSummary(doc->schema);
         const auto it = mgr.announced.find(MemManager::Name(doc->fullName));
         if (it != mgr.announced.end()) {
@@ -644,6 +646,19 @@ DRV_OP(OpOssOp, "oss.op") {
             mgr.TriggerSave(*doc);
           }
           mgr.TriggerClose(*doc);   // without save: the window is closed while a change has not been announced yet
+          out["ret"] = true;
+        } else {
+          out["ret"] = false;
+        }
+      }
+    } else if (k == "isexecutable") {
+      // a pure query of the public interface (it re-checks the operation without executing it)
+      out["ret"] = pid.has_value() ? json(schema.Ops().IsExecutable(*pid)) : json{};
+    } else if (k == "readonly") {
+      // the document of the pictogram starts / stops refusing WriteData (a read-only file): executions fail at the store step
+      if (pid.has_value()) {
+        if (auto* doc = DocOf(*pid, false); doc != nullptr) {
+          doc->readOnly = a.value("on", true);
           out["ret"] = true;
         } else {
           out["ret"] = false;
